@@ -125,7 +125,12 @@ def c03a(ck, prog):
             continue
         for c in fn.calls():
             if c.name == "copy_nonoverlapping" and "push_unchecked" in " ".join(c.mx):
-                ok = re.search(r"^ohkami::response::(Response::send::\{closure#0\}|headers::Headers::write_unchecked_to(::\w+)?)$", fn.key) is not None
+                ALLOWED = r"^ohkami::response::(Response::send::\{closure#0\}|headers::Headers::write_unchecked_to(::\w+)?)$"
+                ok = re.search(ALLOWED, fn.key) is not None
+                if not ok and fn.unsafe and not fn.pub and "response::" in fn.key:
+                    # an `unsafe fn` helper of the writers (its capacity precondition is its callers' business): only they call it
+                    cs = prog.callers().get(fn.key, [])
+                    ok = bool(cs) and all(re.search(ALLOWED, c_.fn.key) for c_ in cs)
                 if not ok:
                     ck.ob(R, "who:push_unchecked-in:" + fn.key[-70:], False, fn.loc(c.sp), "push_unchecked! is used in %s, outside the functions whose capacity this rule accounts for" % fn.key)
 
@@ -156,6 +161,7 @@ def c03g(ck, prog):
     or written directly)."""
     R = "C03-g MUSTPASS payload sent"
     f = prog.coroutine_body(prog.one(r"^ohkami::response::Response::send$").key)
+    f = prog.awaited_inlined(f, 1, containing=r"(AsyncWriteExt|WriteExt)::write_all$")     # `write_all` + `flush` as an awaited local helper
     arm = None
     for bi in sorted(f.live_blocks()):
         info = f.switch_info(bi) if f.blocks[bi]["t"]["k"] == "switch" else None
@@ -360,6 +366,12 @@ def c03b(ck, prog):
             merged.append(("lit", x, inner(xbb)) if is_lit else ("var", x, inner(xbb)))
     lits_written = [m[1] for m in merged if m[0] == "lit"]
     ok = lits_written == [": ", "\r\n", ": ", "\r\n", "Set-Cookie: ", "\r\n", "\r\n"]
+    if not ok and lits_written == [": ", "\r\n", "\r\n"]:
+        # one loop over Headers::iter(), every entry written as `name: value CRLF`: the cookie lines get their name from iter()
+        it = [g_ for g_ in prog.fns.values() if re.search(r"^ohkami::response::headers::Headers::iter(::\{closure#\d+\})*$", g_.key)]
+        names_in_iter = {a_.get("s") for g_ in it for c_ in g_.calls() for a_ in g_.const_args(c_) if a_ and a_.get("s")} | \
+            {m_ for g_ in it for m_ in re.findall(r"'s': '(Set-Cookie)'", str(g_.blocks))}
+        ok = bool(w.calls_to(r"response::headers::Headers::iter$")) and "Set-Cookie" in names_in_iter
     ck.ob(R, "table:writer-literals", ok, w.loc(None), "" if ok else "write_unchecked_to emits literals %r, expected name ': ' value CRLF per header, 'Set-Cookie: ' value CRLF per cookie and the final CRLF" % lits_written,
           how="writer literals %r" % lits_written)
     expect = {
